@@ -90,8 +90,9 @@ def model_c28(c):
     inv = ["ReadExact", "NoHang"]
     base = dict(READ_MODEL)
     if not c.quick:
-        base.update(FileSize=4, ReadSizes={1, 3}, SeekPos={0, 2}, VOffs={0, 2, 4}, VLens={1, 3})
-    c.mc_holds("SftpClientProto", cfg_text(constants=consts(base), invariants=inv), name="prefetch/readv, repaired")
+        base.update(ReadSizes={1, 3}, SeekPos={0, 2}, VOffs={0, 2, 4}, VLens={1, 2})
+    c.mc_holds("SftpClientProto", cfg_text(constants=consts(base), invariants=inv), name="prefetch/readv, repaired",
+               timeout=3000)
     small = dict(READ_MODEL)
     c.mc("SftpClientProto", cfg_text(constants=consts(dict(small, FixExtent=False)), invariants=inv), expect="NoHang",
          name="faithful: STATUS leaves the extent registered")
@@ -171,6 +172,8 @@ def directed_programs():
     add(S, False, [{"op": "readv", "chunks": [[S, 10]], "maxc": 0},
                    {"op": "readv", "chunks": [[0, 32768], [32768, 32768]], "maxc": 0}], 16)
     add(1000, False, [{"op": "readv", "chunks": [[0, 0]], "maxc": 0}, {"op": "read", "n": 10}], 17)
+    add(S, False, [{"op": "readv", "chunks": [[32768, 32768], [32768, 32768]], "maxc": 0},
+                   {"op": "readv", "chunks": [[32768, 32768]], "maxc": 1}], 22)
     add(S, True, [{"op": "readv", "chunks": [[32768, 32768], [32768, 32768]], "maxc": 0},
                   {"op": "readv", "chunks": [[32768, 32768]], "maxc": 1}], 18)
     add(S, True, [{"op": "readv", "chunks": [[0, 40000], [20000, 40000], [100, 100]], "maxc": 2},
@@ -256,6 +259,10 @@ def client_half(c, pid):
               {"op": "closeW"}],
              [{"op": "readv", "chunks": [[100000, 10]], "maxc": 0}, {"op": "write", "count": 2, "n": 5, "pipelined": True},
               {"op": "readv", "chunks": [[0, 32768], [32768, 32768]], "maxc": 0}, {"op": "closeW"}],
+             [{"op": "write", "count": 2, "n": 5, "pipelined": True}, {"op": "readv", "chunks": [[100000, 10]], "maxc": 0},
+              {"op": "seek", "p": 0}, {"op": "read", "n": 100}, {"op": "closeW"}],
+             [{"op": "readv", "chunks": [[65536, 40000], [65536, 40000]], "maxc": 0}, {"op": "write", "count": 2, "n": 5, "pipelined": True},
+              {"op": "readv", "chunks": [[65536, 40000]], "maxc": 1}, {"op": "closeW"}],
              [{"op": "prefetch", "maxc": 2, "fsize": True}, {"op": "write", "count": 150, "n": 20, "pipelined": True},
               {"op": "read", "n": 60000}, {"op": "sync", "which": "stat"}, {"op": "read", "n": 60000}, {"op": "closeW"}]]
     for j, prog in enumerate(fixed):
